@@ -360,17 +360,18 @@ def install(rec):
         if ok:
             dense_path = snap["rep"] == "dense" or backend.upper() == "NUMPY"
             inside = {i for i, l in enumerate(true) if lo + tol < l < hi - tol}
-            if dense_path:
-                ok = inside <= set(idx)
-            else:
-                # the (up to) k eigenvalues nearest the centre, trimmed to window
-                dist = np.abs(true - c)
-                order = np.sort(dist)
-                kk = min(k, len(true))
-                t = order[kk - 1]
-                req = {i for i in inside if dist[i] < t - 10 * tol}
-                ok = req <= set(idx)
-        rec.check("eigh_window", "window", ok, mech="eigh_window:window",
+            # whatever the representation: the (up to) k eigenvalues nearest the
+            # centre, trimmed to the window ("k: target number", "el: (k,) array")
+            dist = np.abs(true - c)
+            order = np.sort(dist)
+            kk = min(k, len(true))
+            t = order[kk - 1]
+            req = {i for i in inside if dist[i] < t - 10 * tol}
+            ok = req <= set(idx)
+            if ok and len(lk) > kk:
+                ok = False
+                detail = dict(detail, returned=len(lk), note="more_than_k")
+        rec.check("eigh_window", "window", ok, mech="eigh_window:window" + (":more_than_k" if detail.get("note") else ""),
                   detail=dict(detail, got=lk[:6], window=(lo, hi)), sig=sig)
         if return_vecs and len(lk):
             vk = np.asarray(result[1])
